@@ -57,6 +57,8 @@ def load_units():
                         uv['name'] = u['name'] + '.' + v['suffix']
                         uv['defines'] = list(u.get('defines', [])) + list(v.get('defines', []))
                         uv['variant_of'] = u['name']
+                        if v.get('probes'):
+                            uv['probes'] = list(u.get('probes', [])) + list(v['probes'])
                         units.append(uv)
                 else:
                     units.append(u)
@@ -115,7 +117,7 @@ def prepare_scratch(unit, scratch):
             ex['file'], ', '.join(ex['functions']))
         open(os.path.join(scratch, ex['as']), 'w').write(hdr + body)
     byfile = {}
-    for e in unit.get('loop_contracts', []):
+    for e in unit.get('loop_contracts', []) + unit.get('probes', []):
         byfile.setdefault(e['file'], []).append(e)
     for f, entries in byfile.items():
         real = os.path.join(REPO, f)
@@ -560,11 +562,24 @@ def run_cover(unit, scratch, uws, timeout, mem):
     if results is None:
         return {'status': 'UNDECIDED', 'why': 'cover run produced no result: ' + msgs[-500:], 'covers': []}
     goals = [r for r in results if r.get('description', '').startswith('COVER ')
-             and r.get('sourceLocation', {}).get('function') == unit['harness']]
+             and (r.get('sourceLocation', {}).get('function') == unit['harness']
+                  or r.get('description', '').startswith('COVER probe:'))]
+    nprobes = len([g for g in goals if g.get('description', '').startswith('COVER probe:')])
+    if nprobes < len(unit.get('probes', [])):
+        return {'status': 'UNDECIDED', 'why': 'reachability probes: %d listed, %d found in the cover run' % (len(unit.get('probes', [])), nprobes), 'covers': []}
     if not goals:
         return {'status': 'UNDECIDED', 'why': 'no cover goals in harness (vacuity guard missing)', 'covers': []}
+    # a probe inside a contracted loop shows up once per copy of the loop body the instrumentation makes
+    # (first iteration from the entry state + the step from the havocked state): reachable in any copy counts
+    probe_sat = set(g['description'] for g in goals if g['description'].startswith('COVER probe:') and g['status'] == 'FAILURE')
+    seen_probe = set()
     for g in goals:
         sat = g['status'] == 'FAILURE'   # the negated goal fails <=> the goal is reachable
+        if g['description'].startswith('COVER probe:'):
+            if g['description'] in seen_probe:
+                continue
+            seen_probe.add(g['description'])
+            sat = g['description'] in probe_sat
         out['covers'].append({'goal': g['description'], 'status': 'satisfied' if sat else 'unreachable',
                               'line': g.get('sourceLocation', {}).get('line')})
         if not sat:
@@ -999,7 +1014,7 @@ def main():
                     print('    ' + text.replace('\n', '\n    ')[-2500:])
         for cgoal in r['covers']:
             if cgoal['status'] != 'satisfied' or a.verbose:
-                print('  cover line %s: %s' % (cgoal['line'], cgoal['status']))
+                print('  cover line %s: %s%s' % (cgoal['line'], cgoal['status'], ('  ' + cgoal['goal'][6:]) if cgoal['goal'].startswith('COVER probe:') else ''))
         print('covers: %d/%d satisfied' % (sum(1 for c in r['covers'] if c['status'] == 'satisfied'), len(r['covers'])))
         return 0
     if a.cmd == 'check':
